@@ -99,27 +99,43 @@ func (v *varValidator) validateVarType(typ *ast.Type, val reflect.Value) (reflec
 		v.path = currentPath
 	}
 	defer resetPath()
+
+	if !typ.NonNull && !val.IsValid() {
+		// If the type is not null and we got a invalid value namely null/nil, then it's valid
+		return val, nil
+	}
+
 	if typ.Elem != nil {
 		if val.Kind() != reflect.Slice {
 			// GraphQL spec says that non-null values should be coerced to an array when possible.
-			// Hence if the value is not a slice, we create a slice and add val to it.
-			slc := reflect.MakeSlice(reflect.SliceOf(val.Type()), 0, 0)
-			slc = reflect.Append(slc, val)
-			val = slc
+			// Hence if the value is not a slice, we create a slice holding the value coerced to
+			// the item type (which may be a list again).
+			v.path = append(v.path, ast.PathIndex(0))
+			item, err := v.validateVarType(typ.Elem, val)
+			if err != nil {
+				return val, err
+			}
+			slc := reflect.MakeSlice(reflect.SliceOf(item.Type()), 0, 1)
+			return reflect.Append(slc, item), nil
 		}
 		for i := 0; i < val.Len(); i++ {
 			resetPath()
 			v.path = append(v.path, ast.PathIndex(i))
-			field := val.Index(i)
+			elem := val.Index(i)
+			field := elem
 			if field.Kind() == reflect.Ptr || field.Kind() == reflect.Interface {
 				if typ.Elem.NonNull && field.IsNil() {
 					return val, gqlerror.ErrorPathf(v.path, "cannot be null")
 				}
 				field = field.Elem()
 			}
-			_, err := v.validateVarType(typ.Elem, field)
+			cval, err := v.validateVarType(typ.Elem, field)
 			if err != nil {
 				return val, err
+			}
+			// keep an item that was coerced to a list
+			if cval.IsValid() && cval.Kind() != field.Kind() && cval.Type().AssignableTo(elem.Type()) {
+				elem.Set(cval)
 			}
 		}
 		return val, nil
@@ -127,11 +143,6 @@ func (v *varValidator) validateVarType(typ *ast.Type, val reflect.Value) (reflec
 	def := v.schema.Types[typ.NamedType]
 	if def == nil {
 		panic(fmt.Errorf("missing def for %s", typ.NamedType))
-	}
-
-	if !typ.NonNull && !val.IsValid() {
-		// If the type is not null and we got a invalid value namely null/nil, then it's valid
-		return val, nil
 	}
 
 	switch def.Kind {
